@@ -153,6 +153,29 @@ func truncToInt(t *Term) *Term {
 	return Ite(Raw(">=", BoolSort, t, zero), Raw("to_int", IntSort, t), Neg(Raw("to_int", IntSort, Raw("-", RealSort, t))))
 }
 
+const roundIntExtra = 10
+
+// roundIntToPrec is round-to-nearest-even of a non-negative integer below
+// 2^(prec+roundIntExtra) to prec significant bits, as integer arithmetic.
+func roundIntToPrec(x *Term, prec int) *Term {
+	// one case per bit length prec+1 .. prec+roundIntExtra, nested as else-branches
+	var build func(k int) *Term
+	build = func(k int) *Term {
+		if k > prec+roundIntExtra {
+			return x // unreachable under the bound checked by the caller
+		}
+		sh := k - prec
+		m := IntConst(pow2(sh))
+		q := EDiv(x, m)
+		rem := EMod(x, m)
+		half := IntConst(pow2(sh - 1))
+		up := Or(Gt(rem, half), And(Eq(rem, half), Eq(EMod(q, IntConst64(2)), IntConst64(1))))
+		v := Mul(Add(q, Ite(up, IntConst64(1), IntConst64(0))), m)
+		return Ite(Lt(x, IntConst(pow2(k))), v, build(k+1))
+	}
+	return Ite(Lt(x, IntConst(pow2(prec))), x, build(prec+1))
+}
+
 func registerBigFloat(e *Engine) {
 	R := e.Register
 	newF := func(f bigFloat) value {
@@ -193,6 +216,20 @@ func registerBigFloat(e *Engine) {
 		}
 		if fpMode(fr) {
 			return setFloat(a[0], fpSetInt(fr, f, x))
+		}
+		if fr.i.ctx.opts != nil && fr.i.ctx.opts.FloatMode == "real-roundint" {
+			// SetInt into a receiver of precision p rounds to nearest-even at p
+			// bits: modelled exactly for 0 <= x < 2^(p+roundIntExtra)
+			prec := f.Prec
+			if f.C != nil {
+				prec = f.C.Prec()
+			}
+			if prec != 0 {
+				if fr.i.decide(Or(Lt(x, IntConst64(0)), Ge(x, IntConst(pow2(int(prec)+roundIntExtra))))) {
+					panic(abortPath{"bound-exceeded", fmt.Sprintf("big.Float.SetInt of an integer outside [0, 2^%d) in real-roundint mode", int(prec)+roundIntExtra)})
+				}
+				return setFloat(a[0], bigFloat{Prec: prec, T: toReal(roundIntToPrec(x, int(prec)))})
+			}
 		}
 		return setFloat(a[0], bigFloat{Prec: f.Prec, T: toReal(x)})
 	})
